@@ -85,6 +85,14 @@ func (l *LogCapture) Handle(_ context.Context, r slog.Record) error {
 		return true
 	})
 	l.Counts[msg]++
+	if p := os.Getenv("VERIF_LS_LOG"); p != "" { // development aid: litestream's own log, in order
+		if f, err := os.OpenFile(p, os.O_CREATE|os.O_WRONLY|os.O_APPEND, 0o644); err == nil {
+			line := r.Level.String() + " " + r.Message
+			r.Attrs(func(a slog.Attr) bool { line += " " + a.Key + "=" + a.Value.String(); return true })
+			fmt.Fprintln(f, line)
+			f.Close()
+		}
+	}
 	return nil
 }
 func (l *LogCapture) WithAttrs([]slog.Attr) slog.Handler { return l }
